@@ -20,6 +20,8 @@ type storeGenState struct {
 	kinds   map[string]int
 	extra   []string // further ids to dump
 	ties    bool     // may write an identity again at an instant already used for it (not for the newest-wins scripts)
+	tied    bool     // the last freshTime was such an instant
+	last    map[string]sPoint
 }
 
 const storeBase = int64(1700000000) * 1e9
@@ -47,7 +49,7 @@ func (g *storeGenState) freshTime(target, typ, key string) int64 {
 	if g.used[id] == nil {
 		g.used[id] = map[int64]bool{}
 	}
-	if g.ties && len(g.used[id]) > 0 && g.r.Intn(10) == 0 {
+	if g.ties && len(g.used[id]) > 0 && g.r.Intn(7) == 0 {
 		// the very instant of an earlier write to this identity, with other content: which of the two is read is the
 		// store's business (the newest-wins statement does not say), but hashes, rebroadcast and refusals must be right
 		ts := make([]int64, 0, len(g.used[id]))
@@ -56,6 +58,7 @@ func (g *storeGenState) freshTime(target, typ, key string) int64 {
 		}
 		sort.Slice(ts, func(i, j int) bool { return ts[i] < ts[j] })
 		g.kinds["same-instant-other-content"]++
+		g.tied = true
 		return ts[g.r.Intn(len(ts))]
 	}
 	for {
@@ -123,6 +126,7 @@ func (g *storeGenState) dataPoint(target string) sPoint {
 		typ = "" // an untyped point is a point like any other
 	}
 	p := sPoint{Type: typ, Key: key, VBits: g.value(), Text: storeTexts[g.r.Intn(len(storeTexts))]}
+	g.tied = false
 	p.Time = g.freshTime(target, typ, key)
 	if g.r.Intn(4) == 0 {
 		p.Data = []byte{byte(g.r.Intn(256)), 0, byte(g.r.Intn(256))}
@@ -133,6 +137,19 @@ func (g *storeGenState) dataPoint(target string) sPoint {
 	if g.r.Intn(3) == 0 {
 		p.Origin = []string{"o1", "n1", "user-x"}[g.r.Intn(3)]
 	}
+	id := target + "|" + typ + "|" + storeNormKey(key)
+	if g.last == nil {
+		g.last = map[string]sPoint{}
+	}
+	idt := fmt.Sprintf("%s@%d", id, p.Time)
+	if q, ok := g.last[idt]; ok && g.tied && g.r.Intn(3) != 0 {
+		// ... or the same instant, value and text as before and only the fields the checksum does not cover changed
+		// (a deletion that reuses the time of what it deletes, a new payload, another author)
+		p.VBits, p.Text = q.VBits, q.Text
+		p.Tomb, p.Data, p.Origin = q.Tomb+1, []byte{byte(len(g.ops)), 1}, "rewriter"
+		g.kinds["same-instant-same-checksum"]++
+	}
+	g.last[idt] = p
 	return p
 }
 
@@ -394,6 +411,21 @@ func storeGen(r *rand.Rand, id int, flavour string) *sScript {
 			if len(g.ops) > 0 && r.Intn(7) == 0 {
 				// re-deliver an earlier request unchanged
 				old := g.ops[r.Intn(len(g.ops))]
+				if r.Intn(3) == 0 && len(old.Points) > 0 {
+					// the same content reported again at a later instant (a sensor that still reads 5): the later point
+					// is the newest one, with its own time
+					again := sOp{Kind: old.Kind, Node: old.Node, Parent: old.Parent}
+					for _, p := range old.Points {
+						if p.Far == 0 && p.Type != "tombstone" && p.Type != "nodeType" {
+							p.Time = g.tick()
+							again.Points = append(again.Points, p)
+						}
+					}
+					if len(again.Points) > 0 {
+						g.add("same-content-later", again)
+						continue
+					}
+				}
 				g.add("redelivery", old)
 			} else {
 				if id%12 == 7 && g.kinds["node-points-large"]+g.kinds["edge-points-large"] == 0 {
